@@ -110,6 +110,11 @@ EXTRA = {
  "GetActions": [
   '//@   at-call controllers.SendResponse {C13} [status-206-iff-content-range] when $1 == nil && $2.Action == metrics.ActionGetObject :: requires ($2.Status == 206) <==> (res.ContentRange != nil && *res.ContentRange != "")',
   '//@   at-call utils.StreamResponseBody {C13} [body-and-length-forwarded] requires $1 == res.Body && res.ContentLength != nil ==> $2 == *res.ContentLength',
+  '// every header added to a response header list whose name is Content-Range (in whatever casing) carries the value the backend',
+  '// computed for the bytes it serves',
+  '//@   let got = result("backend.Backend.GetObject", 0)',
+  '//@   at-call builtin.append[utils.CustomHeader] {C13} [a-content-range-header-is-the-backends] requires forall j int :: 0 <= j && j < len($1) && strings.ToLower($1[j].Key) == "content-range" ==> \\',
+  '//@        called("backend.Backend.GetObject") && got.ContentRange != nil && $1[j].Value == *got.ContentRange',
  ],
 }
 
@@ -180,8 +185,8 @@ def main():
             out.append('//@   loop 1 invariant {C03} [each-key-decided] -1 <= rangeindex && rangeindex < len(dObj.Objects) && (forall j int :: 0 <= j && j <= rangeindex ==> ' + granted('bucket', '*dObj.Objects[j].Key', 'DeleteObjectAction', W).replace('$recv','c.be') + ')')
         if h == "DeleteObjects":
             out.append('//@   loop 1 invariant {C15} [writable-once-decided] rangeindex >= 0 ==> !c.readonly')
-            out.append('//@   loop 1 invariant {C04} [each-key-opaque] -1 <= rangeindex && rangeindex < len(dObj.Objects) && (forall j int :: 0 <= j && j <= rangeindex ==> !backend.HasDotSegment(*dObj.Objects[j].Key) && !backend.HasEmptySegment(*dObj.Objects[j].Key) && backend.IsPathComponent(backend.GetStringFromPtr(dObj.Objects[j].VersionId)))')
-            out.append('//@   at-call backend.Backend.DeleteObjects {C04} [keys-are-opaque-names] requires forall i int :: 0 <= i && i < len($1.Delete.Objects) ==> !backend.HasDotSegment(*$1.Delete.Objects[i].Key) && !backend.HasEmptySegment(*$1.Delete.Objects[i].Key) && backend.IsPathComponent(backend.GetStringFromPtr($1.Delete.Objects[i].VersionId))')
+            out.append('//@   loop 1 invariant {C04} [each-key-opaque] -1 <= rangeindex && rangeindex < len(dObj.Objects) && (forall j int :: 0 <= j && j <= rangeindex ==> *dObj.Objects[j].Key != "" && !backend.HasDotSegment(*dObj.Objects[j].Key) && !backend.HasEmptySegment(*dObj.Objects[j].Key) && backend.IsPathComponent(backend.GetStringFromPtr(dObj.Objects[j].VersionId)))')
+            out.append('//@   at-call backend.Backend.DeleteObjects {C04} [keys-are-opaque-names] requires forall i int :: 0 <= i && i < len($1.Delete.Objects) ==> *$1.Delete.Objects[i].Key != "" && !backend.HasDotSegment(*$1.Delete.Objects[i].Key) && !backend.HasEmptySegment(*$1.Delete.Objects[i].Key) && backend.IsPathComponent(backend.GetStringFromPtr($1.Delete.Objects[i].VersionId))')
         for (hh, m, b, o, action, perm, mut, content) in T:
             if hh != h: continue
             pat = f'backend.Backend.{m}'
